@@ -338,3 +338,34 @@ seed('c15-phs-from-surface', 'C15', [(RNGC, "    // Get a random point in the sp
 seed('c15-n-phs-test-local', 'C15', [(PLDC, "                    foundSample = InformedSampler::space_->satisfiesBounds(statePtr);\n", "                    const bool inside = InformedSampler::space_->satisfiesBounds(statePtr);\n                    foundSample = inside;\n")], None)
 seed('c15-n-measure-commuted', 'C15', [(GEOC, "    lmeas = dTransverse / 2.0;", "    lmeas = 0.5 * dTransverse;")], None)
 seed('c15-n-keep-gt', 'C15', [(PLDC, "                keep = (randDbl <= 1.0 / static_cast<double>(numIn));", "                keep = !(randDbl > 1.0 / static_cast<double>(numIn));")], None)
+
+# ---- C16 -------------------------------------------------------------------------------------------------------
+PSS = 'src/ompl/base/spaces/constraint/src/ProjectedStateSpace.cpp'
+ASS = 'src/ompl/base/spaces/constraint/src/AtlasStateSpace.cpp'
+CSS = 'src/ompl/base/spaces/constraint/src/ConstrainedStateSpace.cpp'
+TBS = 'src/ompl/base/spaces/constraint/src/TangentBundleStateSpace.cpp'
+ACH = 'src/ompl/base/spaces/constraint/src/AtlasChart.cpp'
+CON = 'src/ompl/base/src/Constraint.cpp'
+seed('c16-projected-no-project', 'C16', [(PSS, "        if (!constraint_->project(scratch)                  // not on manifold\n            || !(interpolate || svc->isValid(scratch))      // not valid", "        if (!(interpolate || svc->isValid(scratch))      // not valid")], 'R16a')
+seed('c16-projected-verdict-ignored', 'C16', [(PSS, "        if (!constraint_->project(scratch)                  // not on manifold\n            || !(interpolate || svc->isValid(scratch))      // not valid", "        constraint_->project(scratch);\n        if (!(interpolate || svc->isValid(scratch))      // not valid")], 'R16a')
+seed('c16-projected-no-step-bound', 'C16', [(PSS, "            || (step = distance(previous, scratch)) > lambda_ * delta_)  // deviated\n            break;", "            )\n            break;\n        step = distance(previous, scratch);")], 'R16a')
+seed('c16-atlas-push-temp-after-phi', 'C16', [(ASS, "        if (geodesic != nullptr)\n            geodesic->push_back(cloneState(scratch));\n\n    } while (!done);", "        if (geodesic != nullptr)\n            geodesic->push_back(cloneState(temp));\n\n    } while (!done);")], 'R16a')
+seed('c16-atlas-step-not-tested', 'C16', [(ASS, "        if (exceedStepSize)\n        {\n            factor *= backoff_;\n            continue;\n        }", "        if (exceedStepSize && factor > 2.0)\n        {\n            factor *= backoff_;\n            continue;\n        }")], 'R16a')
+seed('c16-projected-success-lambda', 'C16', [(PSS, "    return dist <= tolerance;\n}", "    return dist <= lambda_;\n}")], 'R16a')
+seed('c16-validator-no-satisfied', 'C16', [(CSS, "    return ss_.getConstraint()->isSatisfied(s2) && ss_.discreteGeodesic(s1, s2, false);", "    return ss_.discreteGeodesic(s1, s2, false);")], 'R16b')
+seed('c16-validator-or', 'C16', [(CSS, "    return ss_.getConstraint()->isSatisfied(s2) && reached;", "    return ss_.getConstraint()->isSatisfied(s2) || reached;")], 'R16b')
+seed('c16-interpolate-ignores-failure', 'C16', [(CSS, "    if (discreteGeodesic(from, to, true, &geodesic))\n        temp = geodesicInterpolate(geodesic, t);", "    discreteGeodesic(from, to, true, &geodesic);\n    if (!geodesic.empty())\n        temp = geodesicInterpolate(geodesic, t);")], 'R16c')
+seed('c16-interpolate-defaults-to', 'C16', [(CSS, "    auto temp = from;\n    if (discreteGeodesic(from, to, true, &geodesic))", "    auto temp = to;\n    if (discreteGeodesic(from, to, true, &geodesic))")], 'R16c')
+seed('c16-tb-returns-unprojected', 'C16', [(TBS, "    if (!project(state))\n        return geodesic[0];\n\n    return state;", "    project(state);\n    return state;")], 'R16c')
+seed('c16-atlas-near-no-fallback', 'C16', [(ASS, "                  \"Took too long; returning initial point.\");\n        atlas_->copyState(state, near);", "                  \"Took too long; returning initial point.\");")], 'R16d')
+seed('c16-atlas-gaussian-tries-1', 'C16', [(ASS, "    if (tries == 0)\n    {\n        OMPL_WARN(\"ompl::base::AtlasStateSpace::sampleUniforGaussian(): \"", "    if (tries == 1)\n    {\n        OMPL_WARN(\"ompl::base::AtlasStateSpace::sampleUniforGaussian(): \"")], 'R16d')
+seed('c16-atlas-uniform-predec', 'C16', [(ASS, "        } while (tries-- > 0 && !c->inPolytope(ru));\n\n        // Project. Will need to try again if this fails.\n    } while (tries > 0 && !c->psi(ru, *astate));", "        } while (tries-- > 0 && !c->inPolytope(ru));\n\n        // Project. Will need to try again if this fails.\n    } while (tries >= 0 && tries < 1000 && !c->psi(ru, *astate));")], 'R16d')
+seed('c16-projected-sampler-no-project', 'C16', [(PSS, "    WrapperStateSampler::sampleUniform(state);\n    constraint_->project(state);", "    WrapperStateSampler::sampleUniform(state);")], 'R16d')
+seed('c16-satisfied-unsquared', 'C16', [(CON, "    return f.allFinite() && f.squaredNorm() <= tolerance_ * tolerance_;", "    return f.allFinite() && f.squaredNorm() <= tolerance_;")], 'R16e')
+seed('c16-project-norm-vs-squared', 'C16', [(CON, "    while ((norm = f.squaredNorm()) > squaredTolerance && iter++ < maxIterations_)", "    while ((norm = f.norm()) > squaredTolerance && iter++ < maxIterations_)")], 'R16e')
+seed('c16-project-no-reevaluation', 'C16', [(CON, "        x -= j.jacobiSvd(Eigen::ComputeThinU | Eigen::ComputeThinV).solve(f);\n        function(x, f);\n    }", "        x -= j.jacobiSvd(Eigen::ComputeThinU | Eigen::ComputeThinV).solve(f);\n        if (iter >= maxIterations_)\n            break;\n        function(x, f);\n    }")], 'R16f')
+seed('c16-psi-update-after-norm', 'C16', [(ACH, "    return norm < squaredTolerance;\n}", "    out -= 0.5 * (out - x0);\n    return norm < squaredTolerance;\n}")], 'R16f')
+# neutral rewrites
+seed('c16-n-projected-named-verdict', 'C16', [(PSS, "        if (!constraint_->project(scratch)                  // not on manifold\n            || !(interpolate || svc->isValid(scratch))      // not valid", "        const bool onManifold = constraint_->project(scratch);\n        if (!onManifold                  // not on manifold\n            || !(interpolate || svc->isValid(scratch))      // not valid")], None)
+seed('c16-n-validator-commuted', 'C16', [(CSS, "    return ss_.getConstraint()->isSatisfied(s2) && reached;", "    return reached && ss_.getConstraint()->isSatisfied(s2);")], None)
+seed('c16-n-satisfied-local-square', 'C16', [(CON, "    return f.allFinite() && f.squaredNorm() <= tolerance_ * tolerance_;", "    const double squaredTolerance = tolerance_ * tolerance_;\n    return f.allFinite() && f.squaredNorm() <= squaredTolerance;")], None)
